@@ -2,7 +2,7 @@
 EXTENDS TcpclRx
 B(t, size) == [t |-> t, flags |-> 0, id |-> 0, len |-> 0, reason |-> 0, ka |-> 0, mru |-> 0, mrucls |-> "na",
                xmrucls |-> "na", total |-> -1, nid |-> "", size |-> size, rej |-> 0, ver |-> 4,
-               magicok |-> TRUE, nexts |-> 0, typ |-> 0]
+               magicok |-> TRUE, nexts |-> 0, typ |-> 0, tok |-> -1]
 \* sizes: contact header 6, KEEPALIVE 1, SESS_TERM 3, XFER_SEGMENT with 0 / 2 data octets without START 18 / 20
 McCatalogue == {B("CH", 6), B("KA", 1), B("TERM", 3), [B("SEG", 18) EXCEPT !.flags = 0], [B("SEG", 20) EXCEPT !.len = 2]}
 =============================================================================
